@@ -255,7 +255,7 @@ func verifC42Same(a, b []byte) bool {
 	return diff == 0
 }
 
-//verif:harness prop=C42 reach=done,all-fields,bottom-vote,longest unwind=12 budget=200 thorough.budget=2400
+//verif:harness prop=C42 reach=done,all-fields,bottom-vote,longest unwind=12 budget=200 thorough.budget=6000
 func VerifC42StatelessRoundTrip() {
 	v := verifC42NewVote(verifC42Forms(vr.Param(0, 1) == 1, false))
 	src := verifC42Msgp(v)
@@ -684,7 +684,7 @@ func VerifC42StatefulStepRound() {
 // Proposal window: every head 0..6 (quick tier: 0, 3, 6) and size 0..7, arbitrary entries, arbitrary
 // proposal in the vote; tables fresh, lastRnd = the vote's round.
 //
-//verif:harness prop=C42 reach=done,prop-ref,prop-literal,window-evicts,window-wraps,bottom-ref unwind=16 budget=280 thorough.budget=3000
+//verif:harness prop=C42 reach=done,prop-ref,prop-literal,window-evicts,window-wraps,bottom-ref unwind=16 budget=280 thorough.budget=8000
 func VerifC42StatefulStepWindow() {
 	enc, dec := verifC42NewPair()
 	w := &enc.proposalWindow
